@@ -21,7 +21,7 @@ CLAIMED = {
         note='Trusted: documented operand sets written out in DESIGN.md appendix A; z3; stubs.',
         ref='6 C06'),
     'C07': dict(
-        text='relocate_hi / relocate_lo / sign_extend executed symbolically for every value within the width: field ranges, recombination modulo 2^32, acceptance by the consuming encoders, and lui/auipc + addi/lw/sw/jalr pairs from whole-pipeline templates with constant, label(+symbolic gap) and %position operands - decoded as words without -c, and *executed* by the reference semantics in both modes (any instruction length, every base register incl. sp), plus hi/lo layout templates around far calls and shrinking li.',
+        text='relocate_hi / relocate_lo / sign_extend executed symbolically for every value within the width: field ranges, recombination modulo 2^32, acceptance by the consuming encoders, and lui/auipc + addi/lw/sw/jalr pairs from whole-pipeline templates with constant, label(+symbolic gap) and %position operands (also operands with grouping of their own such as V + (W << 7), both symbolic) - decoded as words without -c, and *executed* by the reference semantics in both modes (any instruction length, every base register incl. sp), plus hi/lo layout templates around far calls and shrinking li.',
         note='Trusted: z3, stubs. Bound: value width in evidence; the pair templates listed there.',
         ref='6 C07'),
 }
@@ -47,7 +47,7 @@ CLAIMED.update({
 
 CLAIMED.update({
     'C03': dict(
-        text='Layout templates (curated cases, the adjacency and between families, symbolic alignments, and seeded random programs; branches, j, jal, call, tail, shrinking li, data, aligns, symbolic gaps up to 8 MiB) run through the whole real assemble() in both modes; on every accepting path each transfer is decoded by the reference semantics and must land on the label offset recomputed from the emitted chunks, and the reported label table must equal those offsets; two-call histories that re-use one labels dictionary (same names, also in the opposite order) must give the second program its own offsets; two templates are passed as text with CRLF line ends.',
+        text='Layout templates (curated cases, the adjacency and between families, symbolic alignments, and seeded random programs; branches, j, jal, call, tail, shrinking li, data, aligns, symbolic gaps up to 8 MiB) run through the whole real assemble() in both modes; on every accepting path each transfer is decoded by the reference semantics and must land on the label offset recomputed from the emitted chunks, and the reported label table must equal those offsets; two-call histories that re-use one labels dictionary (same names, also in the opposite order) must give the second program its own offsets; two templates are passed as text with CRLF line ends; the -l file written by the real cli_main() (four programs, two with labels that share an offset) must hold one line per label with that offset.',
         note='Trusted: spec/sem.py decoding, the chunk list seen at resolve_blobs (wrapped from outside), z3, stubs. Bound: the template set (<= 12 lines each), gap sizes, li widths in evidence.',
         ref='6 C03'),
     'C08': dict(
